@@ -3,6 +3,7 @@ package rules
 import (
 	"fmt"
 	"go/token"
+	"go/types"
 	"math/big"
 	"strings"
 
@@ -18,8 +19,44 @@ func init() {
 }
 
 // foldSSA evaluates a pure integer SSA expression tree over parameter value n.
+// wrapInt reduces r to the value range of Go integer type t (two's complement wrap-around), so
+// that narrowing conversions and narrow arithmetic inside the formula are evaluated exactly.
+func wrapInt(t types.Type, r int64) int64 {
+	b, ok := t.Underlying().(*types.Basic)
+	if !ok {
+		return r
+	}
+	switch b.Kind() {
+	case types.Uint8:
+		return int64(uint8(r))
+	case types.Uint16:
+		return int64(uint16(r))
+	case types.Uint32:
+		return int64(uint32(r))
+	case types.Int8:
+		return int64(int8(r))
+	case types.Int16:
+		return int64(int16(r))
+	case types.Int32:
+		return int64(int32(r))
+	}
+	return r
+}
+
 func foldSSA(v ssa.Value, param *ssa.Parameter, n int64) (int64, error) {
+	r, err := foldSSA0(v, param, n)
+	if err != nil {
+		return 0, err
+	}
+	return wrapInt(v.Type(), r), nil
+}
+
+func foldSSA0(v ssa.Value, param *ssa.Parameter, n int64) (int64, error) {
 	switch x := v.(type) {
+	case *ssa.Convert:
+		return foldSSA(x.X, param, n)
+	case *ssa.ChangeType:
+		return foldSSA(x.X, param, n)
 	case *ssa.Parameter:
 		if x == param {
 			return n, nil
@@ -127,7 +164,7 @@ func goQuorumExpr(p *load.Program, pkg string) (ssa.Value, *ssa.Parameter, error
 		switch x := i.(type) {
 		case *ssa.Return:
 			ret = x
-		case *ssa.BinOp, *ssa.DebugRef:
+		case *ssa.BinOp, *ssa.DebugRef, *ssa.Convert, *ssa.ChangeType:
 		default:
 			return nil, nil, fmt.Errorf("CalculateQuorum contains a non-arithmetic instruction: %s", i)
 		}
